@@ -85,7 +85,7 @@ static std::string check_hooks( bool has_unwind, bool& action_exc_defect )
             if( st.back().kind != RK_MUST && st.back().kind != RK_RAISE ) {
                // a table rule that *is* must< R > / raise< R > (node<I>::match dispatches to it directly)
                const int op = st.back().kind == RK_NODE ? tab[ st.back().rule ].op : -1;
-               if( op != MUST && op != RAISE_OF && op != RAISE_MSG ) return "raise outside a must-context or raise rule";
+               if( op != MUST && op != RAISE_OF && op != RAISE_MSG && op != TC_RN_MSG ) return "raise outside a must-context or raise rule";
             }
             break;
          case E_EXIT_T:
@@ -125,10 +125,10 @@ static std::string check_hooks( bool has_unwind, bool& action_exc_defect )
 }
 
 // monitor controls: plain (0), without unwind (1), all rules enabled (2), must_if tables over the monitor (4, 5),
-// the monitor behind remove_first_state (8)
+// the monitor behind remove_first_state (8), the monitor while an unrelated exception is in flight (10)
 static bool hooks_checked_for( int ctl )
 {
-   return ctl <= 2 || ctl == 4 || ctl == 5 || ctl == 8;
+   return ctl <= 2 || ctl == 4 || ctl == 5 || ctl == 8 || ctl == 10;
 }
 
 // ---------------------------------------------------------------- one execution
@@ -155,7 +155,7 @@ static void one_execution( const Case& c, const std::vector< int >& pre, bool ve
    g_begin = buf.p;
    L.record_events = S.check_hooks && hooks_checked_for( c.cfg.ctl );
    g_errors = ( c.cfg.ctl == 4 || c.cfg.ctl == 6 || c.cfg.ctl == 9 ) ? 1 : ( c.cfg.ctl == 5 || c.cfg.ctl == 7 ) ? 2 : 0;
-   monitor_frames = ( c.cfg.ctl < 6 || c.cfg.ctl == 8 );  // controls 6, 7 and 9 are must_if over the plain normal control: no monitor frames
+   monitor_frames = ( c.cfg.ctl < 6 || c.cfg.ctl == 8 || c.cfg.ctl == 10 );  // controls 6, 7 and 9 are must_if over the plain normal control: no monitor frames
    g_current_case = &c;
    // the reference runs first: where it diverges there is no PEG result to compare with (DESIGN §3.1)
    RI.data = buf.p;
@@ -180,6 +180,7 @@ static void one_execution( const Case& c, const std::vector< int >& pre, bool ve
    check_positions = S.check_positions;
    monitor_apply_mode = !S.check_scopes;
 
+   memset( ca_counts, 0, sizeof ca_counts );
    verif_c03 = 0;
    Real r;
    fault_armed = 1;
@@ -198,7 +199,8 @@ static void one_execution( const Case& c, const std::vector< int >& pre, bool ve
       top_A = 1;
       L.reset();
       try {
-         const bool ok = ( c.cfg.fam == 1 ) ? p::coverage< node< 0 >, act_apply, mon >( in, cov_result ) : p::coverage< node< 0 >, act_bool, mon >( in, cov_result );
+         // ctl 4: the must_if table A over the monitor - the wrapped control's failure() raises, the coverage state must have been told first
+         const bool ok = ( c.cfg.ctl == 4 ) ? p::coverage< node< 0 >, act_apply, mon_errA >( in, cov_result ) : ( c.cfg.fam == 1 ) ? p::coverage< node< 0 >, act_apply, mon >( in, cov_result ) : p::coverage< node< 0 >, act_bool, mon >( in, cov_result );
          r.kind = ok ? Real::OK : Real::FAILED;
          r.pos = int( in.current() - g_begin );
       }
@@ -281,6 +283,9 @@ static void one_execution( const Case& c, const std::vector< int >& pre, bool ve
          if( ch >= '0' && ch <= '9' ) ch = '#';
       if( lazy_rematch_bof )
          report( "C06", "lazy input: positions inside the second phase of rematch / minus are relative to the re-matched text|consequence: bof matches at the start of the re-matched text", c, j );
+      else if( S.check_positions && In::tracking_mode_v == p::tracking_mode::lazy && L.raise_in_rematch && j.rfind( "error position", 0 ) == 0 )
+         // the same finding seen through an error: a parse_error raised while a rematch / minus rule is open takes its position from the sub-input
+         report( "C06", "lazy input: positions inside the second phase of rematch / minus are relative to the re-matched text|consequence: a parse_error raised inside the re-match carries the relative position", c, j );
       else
          report( exc ? S.exc_prop : S.result_prop, S.check_positions ? "match result differs from the reference (rule outcome depends on a position counter): " + cls : cls, c, j );
    }
@@ -426,10 +431,23 @@ static void one_execution( const Case& c, const std::vector< int >& pre, bool ve
          }
       }
    }
+   // ---- control_action (C08): the hooks of an action class deriving from control_action are called for every attempt
+   if( c.cfg.fam == 20 ) {
+      for( int i = 0; i < c.nrules; ++i ) {
+         if( ca_counts[ i ][ 0 ] != RI.cov[ i ][ 0 ] || ca_counts[ i ][ 1 ] != RI.cov[ i ][ 1 ] || ca_counts[ i ][ 2 ] != RI.cov[ i ][ 2 ] || ca_counts[ i ][ 3 ] != RI.cov[ i ][ 3 ] ) {
+            report( "C08", "control_action: start/success/failure/unwind of the action differ from the attempts and outcomes of the rule", c, "rule n" + std::to_string( i ) + " hooks " + std::to_string( ca_counts[ i ][ 0 ] ) + "/" + std::to_string( ca_counts[ i ][ 1 ] ) + "/" + std::to_string( ca_counts[ i ][ 2 ] ) + "/" + std::to_string( ca_counts[ i ][ 3 ] ) + " reference " + std::to_string( RI.cov[ i ][ 0 ] ) + "/" + std::to_string( RI.cov[ i ][ 1 ] ) + "/" + std::to_string( RI.cov[ i ][ 2 ] ) + "/" + std::to_string( RI.cov[ i ][ 3 ] ) );
+            break;
+         }
+      }
+   }
    // ---- hook protocol (C08)
    if( S.check_hooks && hooks_checked_for( c.cfg.ctl ) ) {
       bool defect = false;
+#ifdef VERIF_TREE
+      const std::string h = check_hooks( true, defect );  // in the tree space ctl 1 = "with a user state", the control has unwind
+#else
       const std::string h = check_hooks( c.cfg.ctl != 1, defect );
+#endif
       if( !h.empty() ) report( "C08", h, c );
       if( defect ) report( "C08", "exception thrown by an action leaves the rule attempt without unwind", c );
    }
